@@ -900,6 +900,21 @@ fn oracle_c14(rep: &mut Report, c: &Case, spec: &openapiv3::OpenAPI, h: &hir::Hi
         }
     }
     if expected != h.security.len() { rep.oracle_fail("strategyCount", vec![], &case, &format!("{expected} supported requirements, {} strategies", h.security.len())); }
+    // `from_env` builds the credential of the FIRST strategy: the strategies keep the order of declaration
+    let mut first: Option<String> = None;
+    for req in &spec.security {
+        let Some((name, _)) = req.iter().next() else { first = Some("(anonymous)".into()); break };
+        let Some(openapiv3::RefOr::Item(s)) = spec.components.security_schemes.get(name) else { continue };
+        match s {
+            openapiv3::SecurityScheme::APIKey { .. } | openapiv3::SecurityScheme::HTTP { .. } => { first = Some(format!("token {name}")); break }
+            openapiv3::SecurityScheme::OAuth2 { flows, .. } => { if flows.authorization_code.is_some() { first = Some("oauth2".into()); break } }
+            _ => {}
+        }
+    }
+    if expected == h.security.len() {
+        let got = h.security.first().map(|a| match a { hir::AuthStrategy::Token(t) => format!("token {}", t.name), hir::AuthStrategy::OAuth2(_) => "oauth2".to_string(), hir::AuthStrategy::NoAuth => "(anonymous)".to_string() });
+        if got != first { rep.oracle_fail("firstStrategyNotFirstDeclared", vec![], &case, &format!("first declared requirement: {first:?}, first strategy (the one from_env builds): {got:?}")); } else if first.is_some() { rep.bump("c14_first_strategy_ok"); }
+    }
 }
 
 // ---- C17 oracle (extraction part) ----------------------------------------------------------------
